@@ -9,12 +9,19 @@
 //   seq    every sequence of length 0..4 over a 22-symbol structural alphabet, same oracles, plus a complete
 //          OPL relation line (user, tag key/value, member roles) through opl_parse_line.
 //   long   deterministic long strings (repetitions around buffer-size boundaries, all ordered pairs, cycles).
+//   writer every ordered pair of 20 strings (prefix chains, structural characters, escapes, 1-4 byte sequences) in the same string
+//          slot (user, tag key, tag value, role) of two objects of one buffer through OPLOutputBlock -> opl_parse_line and
+//          XMLOutputBlock -> expat (the writers handle a buffer at a time and may keep state between its objects).
 //   bytes  byte strings of length 1..4 (bytes 01..ff) placed so that the terminating NUL is the last
 //          addressable byte (ASan build: end of a malloc block; plain build: directly in front of a
 //          PROT_NONE page) through the three escape functions in forked children:
 //          no read past the NUL; std::out_of_range when the final UTF-8 sequence is cut off.
 #include <benum/benum.hpp>
 
+#include <osmium/builder/osm_object_builder.hpp>
+#include <osmium/io/detail/opl_output_format.hpp>
+#include <osmium/io/detail/xml_output_format.hpp>
+#include <osmium/osm/changeset.hpp>
 #include <osmium/io/detail/opl_parser_functions.hpp>
 #include <osmium/io/detail/string_util.hpp>
 #include <osmium/memory/buffer.hpp>
@@ -588,6 +595,135 @@ static std::vector<std::string> split(const std::string& s, char c) {
     return r;
 }
 
+// ------------------------------------------------------------------------------------------------
+// part writer: the escaping as the WRITERS apply it. Two objects in one buffer (the writers' output blocks handle a buffer at a
+// time and may keep state between objects): a relation and a changeset or a second relation, the pair (s1, s2) placed in the same
+// string slot of both - user, tag key, tag value, member role. Every ordered pair over an alphabet that contains prefix chains,
+// structural characters, escapes and 1-4 byte sequences. OPLOutputBlock -> opl_parse_line; XMLOutputBlock -> expat.
+static const std::vector<std::string>& wstrings() {
+    static const std::vector<std::string> w = {"", "a", "ab", "abc", "ab ", "a b", "a,b", "a=b@c", "%", "a%20%", "\n", "a\nb", "\xC3\xA9", "\xC3\xA9\xE2\x82\xAC",
+                                               "a\xF0\x9F\x98\x80", "<&\">'", "a\t", "\xC3\xA9\xE2\x82\xACx", "%%", "ab%"};
+    return w;
+}
+static const char* const WSLOT[] = {"user", "key", "value", "role"};
+
+static void build_rel(osmium::memory::Buffer& buf, int64_t id, int slot, const std::string& s) {
+    osmium::builder::RelationBuilder b{buf};
+    b.set_id(id).set_version(1).set_changeset(1).set_uid(1).set_timestamp(osmium::Timestamp{uint32_t(1420070400)}).set_visible(true);
+    b.set_user(slot == 0 ? s.c_str() : "zu");
+    { osmium::builder::TagListBuilder t{b}; t.add_tag(slot == 1 ? s.c_str() : "zk", slot == 2 ? s.c_str() : "zv"); }
+    { osmium::builder::RelationMemberListBuilder m{b}; m.add_member(osmium::item_type::node, 1, slot == 3 ? s.c_str() : "zr"); }
+    buf.commit();
+}
+static void build_cs(osmium::memory::Buffer& buf, int64_t id, int slot, const std::string& s) {
+    osmium::builder::ChangesetBuilder b{buf};
+    b.set_id(static_cast<osmium::changeset_id_type>(id)).set_uid(1).set_created_at(osmium::Timestamp{uint32_t(1420070400)});
+    b.set_user(slot == 0 ? s.c_str() : "zu");
+    { osmium::builder::TagListBuilder t{b}; t.add_tag(slot == 1 ? s.c_str() : "zk", slot == 2 ? s.c_str() : "zv"); }
+    buf.commit();
+}
+struct WGot { std::vector<std::string> user, key, value, role; };
+static void XMLCALL w_start(void* u, const XML_Char* name, const XML_Char** atts) {
+    auto* g = static_cast<WGot*>(u);
+    const std::string n = name;
+    for (int i = 0; atts[i]; i += 2) {
+        const std::string a = atts[i];
+        if ((n == "relation" || n == "changeset") && a == "user") g->user.emplace_back(atts[i + 1]);
+        if (n == "tag" && a == "k") g->key.emplace_back(atts[i + 1]);
+        if (n == "tag" && a == "v") g->value.emplace_back(atts[i + 1]);
+        if (n == "member" && a == "role") g->role.emplace_back(atts[i + 1]);
+    }
+}
+// kind 0: relation + relation, kind 1: relation + changeset, kind 2: changeset + relation
+static void check_writer(int fmt, int kind, int slot, unsigned i1, unsigned i2) {
+    const std::string& s1 = wstrings()[i1]; const std::string& s2 = wstrings()[i2];
+    if (slot == 3 && kind != 0) return;       // changesets have no roles
+    ++C["evaluations"]; ++C[fmt == 0 ? "evaluations_writer_opl" : "evaluations_writer_xml"];
+    if (!s1.empty() || !s2.empty()) ++C["distinct_nontrivial"];
+    const std::string cls = std::string(FMT[fmt]) + "-writer/" + WSLOT[slot] + "/" + (kind == 0 ? "relation,relation" : kind == 1 ? "relation,changeset" : "changeset,relation");
+    const std::string spec = std::string("writer:") + FMT[fmt] + ":" + std::to_string(kind) + "," + std::to_string(slot) + "," + std::to_string(i1) + "," + std::to_string(i2);
+    osmium::memory::Buffer buf{4096, osmium::memory::Buffer::auto_grow::yes};
+    if (kind == 2) build_cs(buf, 1, slot, s1); else build_rel(buf, 1, slot, s1);
+    if (kind == 1) build_cs(buf, 2, slot, s2); else build_rel(buf, 2, slot, s2);
+    const std::string what = std::string("strings ") + show(s1) + " then " + show(s2) + " as " + WSLOT[slot] + " of two objects in one buffer";
+    std::string out;
+    WGot got;
+    try {
+        if (fmt == 0) {
+            od::opl_output_options o; o.add_metadata = osmium::metadata_options{"all"};
+            od::OPLOutputBlock blk{std::move(buf), o};
+            out = blk();
+        } else {
+            od::xml_output_options o; o.add_metadata = osmium::metadata_options{"all"};
+            od::XMLOutputBlock blk{std::move(buf), o};
+            out = blk();
+        }
+    } catch (const std::exception& x) { V.report(cls + "/writer-throws", what + ": " + x.what(), spec); return; }
+    if (fmt == 0) {
+        size_t st = 0; int ln = 0;
+        while (st < out.size()) {
+            size_t e = out.find('\n', st); if (e == std::string::npos) e = out.size();
+            const std::string line = out.substr(st, e - st); st = e + 1; ++ln;
+            osmium::memory::Buffer pb{1024, osmium::memory::Buffer::auto_grow::yes};
+            try {
+                if (!od::opl_parse_line(static_cast<uint64_t>(ln), line.c_str(), pb)) { V.report(cls + "/line-not-parsed", what + ": line " + show(line), spec); return; }
+            } catch (const std::exception& x) { V.report(cls + "/parser-rejects-written-line", what + ": line " + show(line) + ": " + x.what(), spec); return; }
+            const auto& item = pb.get<osmium::memory::Item>(0);
+            if (item.type() == osmium::item_type::relation) {
+                const auto& r = static_cast<const osmium::Relation&>(item);
+                got.user.emplace_back(r.user());
+                for (const auto& t : r.tags()) { got.key.emplace_back(t.key()); got.value.emplace_back(t.value()); }
+                for (const auto& m : r.members()) got.role.emplace_back(m.role());
+            } else if (item.type() == osmium::item_type::changeset) {
+                const auto& c = static_cast<const osmium::Changeset&>(item);
+                got.user.emplace_back(c.user());
+                for (const auto& t : c.tags()) { got.key.emplace_back(t.key()); got.value.emplace_back(t.value()); }
+            }
+        }
+        if (ln != 2) { V.report(cls + "/wrong-number-of-lines", what + ": " + std::to_string(ln) + " lines: " + show(out), spec); return; }
+    } else {
+        static XML_Parser parser = XML_ParserCreate(nullptr);
+        XML_ParserReset(parser, nullptr);
+        XML_SetUserData(parser, &got);
+        XML_SetStartElementHandler(parser, w_start);
+        const std::string doc = "<?xml version='1.0' encoding='UTF-8'?>\n<osm>\n" + out + "</osm>\n";
+        if (XML_Parse(parser, doc.data(), static_cast<int>(doc.size()), 1) == XML_STATUS_ERROR) {
+            V.report(cls + "/rejected-by-expat", what + ": " + XML_ErrorString(XML_GetErrorCode(parser)) + " in " + show(out), spec); return;
+        }
+    }
+    auto expect = [&](int sl, const char* fill) { return std::vector<std::string>{slot == sl ? s1 : std::string(fill), slot == sl ? s2 : std::string(fill)}; };
+    std::vector<std::string> er = expect(3, "zr"); if (kind != 0) er = {"zr"};
+    std::string bad;
+    std::vector<std::string> eu = expect(0, "zu");
+    if (fmt == 1) {     // the XML writer leaves the user attribute of an object out when the name is empty (read back as the empty name)
+        auto drop = [](std::vector<std::string>& v) { v.erase(std::remove(v.begin(), v.end(), std::string()), v.end()); };
+        drop(eu); drop(got.user);
+    }
+    if (got.user != eu) bad = "user";
+    else if (got.key != expect(1, "zk")) bad = "key";
+    else if (got.value != expect(2, "zv")) bad = "value";
+    else if (got.role != er) bad = "role";
+    if (!bad.empty()) {
+        const std::vector<std::string>& g = bad == "user" ? got.user : bad == "key" ? got.key : bad == "value" ? got.value : got.role;
+        std::string gs; for (const auto& x : g) gs += show(x) + " ";
+        V.report(cls + "/not-inverted(" + bad + ")/" + (i1 == i2 ? "same-string-twice" : s2.compare(0, s1.size(), s1) == 0 && !s1.empty() ? "second-extends-first" : s1.compare(0, s2.size(), s2) == 0 && !s2.empty() ? "first-extends-second" : "unrelated-strings"),
+                 what + ": the parser returns " + gs + "from " + show(out), spec);
+    }
+}
+
+static void part_writer(const Args& a) {
+    const unsigned n = static_cast<unsigned>(wstrings().size());
+    const uint64_t total = 2ull * 3 * 4 * n * n;
+    for (uint64_t r = 0; r < total; ++r) {
+        if (!a.mine(r)) continue;
+        uint64_t x = r;
+        const unsigned i2 = x % n; x /= n; const unsigned i1 = x % n; x /= n;
+        const int slot = x % 4; x /= 4; const int kind = x % 3; x /= 3; const int fmt = static_cast<int>(x);
+        check_writer(fmt, kind, slot, i1, i2);
+    }
+    benum::bound("writer output blocks: every ordered pair of " + std::to_string(n) + " strings x 4 string slots x {relation+relation, relation+changeset, changeset+relation} x {OPL, XML}", true);
+}
+
 static int replay(const Args& a, const std::string& spec) {
     const std::vector<std::string> f = split(spec, ':');
     if (f.size() < 3) return 2;
@@ -606,6 +742,7 @@ static int replay(const Args& a, const std::string& spec) {
         return 0;
     }
     const int fmt = f[1] == "xml" ? 1 : 0;
+    if (f[0] == "writer") { auto v = split(f[2], ','); if (v.size() != 4) return 2; check_writer(fmt, atoi(v[0].c_str()), atoi(v[1].c_str()), static_cast<unsigned>(atoi(v[2].c_str())) % wstrings().size(), static_cast<unsigned>(atoi(v[3].c_str())) % wstrings().size()); return 0; }
     if (f[0] == "cp") { report_cp_range(fmt, static_cast<uint32_t>(strtoul(f[2].c_str(), nullptr, 10))); return 0; }
     init_badsyms();
     if (f[0] == "seq") {
@@ -626,6 +763,7 @@ int main(int argc, char** argv) {
     else if (part == "seq") part_seq(a);
     else if (part == "long") part_long(a);
     else if (part == "bytes") part_bytes(a);
+    else if (part == "writer") part_writer(a);
     else { fprintf(stderr, "unknown part\n"); return 2; }
     C.emit();
     return 0;
